@@ -285,6 +285,13 @@ Definition L_pairs (cs : list comp) : bool := walk [] cs && negb (pair_open cs).
 (* the documented exception is a DOUBLE transporter: no more than two carrier proteins *)
 Definition L_cp_strict (cs : list comp) : bool := (cnt c_cp cs <=? 2)%nat.
 
+(* the loader stands in front of every modification, carrier protein and terminating domain
+   ("bad ordering, loader after other non-starter components") *)
+Fixpoint before_first (f : comp -> bool) (cs : list comp) : list comp :=
+  match cs with [] => [] | c :: r => if f c then [] else c :: before_first f r end.
+Definition L_order (cs : list comp) : bool :=
+  negb (existsb c_loader cs) || forallb (fun c => negb (c_mod c || c_cp c || c_end c)) (before_first c_loader cs).
+
 (* the rules without the bound on the carrier proteins (kept to tell which clause a violation breaks) ... *)
 Definition layout_weak (cs : list comp) : bool :=
   L_starter cs && L_loader cs && L_mix cs && L_end cs && L_pairs cs.
@@ -317,7 +324,7 @@ Definition spec_module_gen (strict : bool) (mf : module * list Z) : bool :=
   let (m, fl) := mf in
   let cs := m_comps m in
   nonempty cs && forallb (fun c => negb (c_ignored c)) cs
-  && (if strict then layout_spec cs else layout_weak cs)
+  && (if strict then layout_spec cs else layout_weak cs) && L_order cs
   && opt_ideqb (m_starter m) (find c_starter cs) && opt_ideqb (m_loader m) (find c_loader cs)
   && opt_ideqb (m_cp m) (find c_cp cs) && opt_ideqb (m_end m) (find c_end cs)
   && ids_eqb (m_mods m) (filter c_mod cs) && ids_eqb (m_others m) (others_spec cs)
@@ -420,6 +427,61 @@ Definition spec_fn2 (ds : list comp) (out : list Z) : list Z :=
               | _ => undecodable end
   | _ => verdict false
   end.
+(* output = modules from the hits as supplied, the same modules reloaded, modules from the hits handed over
+   in protein order (stable).  Verdicts: [0] failure / partition or layout violated, [2] only the bound on the
+   carrier proteins, [3] a module rebuilt from its saved form differs, [4] the modules depend on the order in
+   which the hits were supplied (build l <> build (hits of l in position order)) *)
+Definition spec_fn4 (ds : list comp) (out : list Z) : list Z :=
+  match out with
+  | 0 :: r =>
+    match dList (dModule ds) r with
+    | Some (ms, r2) =>
+      match dList (dModule ds) r2 with
+      | Some (ms2, r3) =>
+        match dList (dModule ds) r3 with
+        | Some (ms3, []) =>
+          if negb (spec_build_gen false ds ms) then [0]
+          else if negb (spec_build_gen true ds ms) then [2]
+          else if negb (list_eqb Z.eqb (eDMs ms) (eDMs ms2)) then [3]
+          else if negb (list_eqb Z.eqb (eDMs ms) (eDMs ms3)) then [4]
+          else [1]
+        | _ => undecodable end
+      | _ => undecodable end
+    | _ => undecodable end
+  | _ => verdict false          (* neither construction nor reload may fail *)
+  end.
+(* diagnosis of a violated specification (run id 15, used only to word the report): is the partition
+   clause met, is the first-in-gene flag right, index of the first module that breaks a rule and the verdict
+   of every clause of spec_module_gen on it, in the order of harness/c14.py CLAUSES *)
+Definition diag_module (mf : module * list Z) : list Z :=
+  let (m, fl) := mf in
+  let cs := m_comps m in
+  map (fun b : bool => if b then 1 else 0)
+    [nonempty cs; forallb (fun c => negb (c_ignored c)) cs; L_starter cs; L_loader cs; L_mix cs; L_end cs;
+     L_pairs cs; L_cp_strict cs; L_order cs;
+     opt_ideqb (m_starter m) (find c_starter cs); opt_ideqb (m_loader m) (find c_loader cs);
+     opt_ideqb (m_cp m) (find c_cp cs); opt_ideqb (m_end m) (find c_end cs);
+     ids_eqb (m_mods m) (filter c_mod cs); ids_eqb (m_others m) (others_spec cs);
+     list_eqb Z.eqb fl (flags_of m);
+     match fl with
+     | complete :: trans_at :: _ =>
+       (complete =? (if complete_spec m then 1 else 0)) && (trans_at =? (if spec_trans_at cs then 1 else 0))
+     | _ => false
+     end].
+Fixpoint first_bad (i : Z) (ms : list (module * list Z)) : list Z :=
+  match ms with
+  | [] => [-1]
+  | mf :: r => if spec_module_gen true mf then first_bad (i + 1) r else i :: diag_module mf
+  end.
+Definition diag_fn (ds : list comp) (out : list Z) : list Z :=
+  match out with
+  | 0 :: r => match dList (dModule ds) r with
+              | Some (ms, _) =>
+                (if list_eqb Z.eqb (flat_ids ms) (kept_ids ds) then 1 else 0)
+                :: (if firsts_ok ms then 1 else 0) :: first_bad 0 ms
+              | None => undecodable end
+  | _ => undecodable
+  end.
 (* output = merged?, previous', current', reload of previous' *)
 Definition spec_fn3 (prev cur : list comp) (same : bool) (out : list Z) : list Z :=
   let ds := prev ++ cur in
@@ -475,7 +537,20 @@ Definition run_C14 (fn : Z) (l : list Z) : list Z :=
                  do c <- build_modules_for_cds cur;
                  combine_modules same c p)
          | _ => bad_input end
-  (* 11-13: the specification evaluated on the implementation's output (payload ++ output) *)
+  | 4 => (* build from the hits as supplied, reload every module, build from the hits in position order *)
+         match dList dComp l with
+         | Some (cs, []) =>
+           eRes (fun r => let '(ms, ms2, ms3) := r in eModules ms ++ eModules ms2 ++ eModules ms3)
+                (do ms <- build_modules_for_cds cs; do ms2 <- mapM reload ms;
+                 do ms3 <- build_modules_for_cds (sort_comps cs); Ok (ms, ms2, ms3))
+         | _ => bad_input end
+  | 14 => match dList dComp l with
+          | Some (cs, out) => spec_fn4 cs out
+          | _ => bad_input end
+  | 15 => match dList dComp l with
+          | Some (cs, out) => diag_fn cs out
+          | _ => bad_input end
+  (* 11-14: the specification evaluated on the implementation's output (payload ++ output) *)
   | 11 | 12 => match dList dComp l with
                | Some (cs, out) => if fn =? 11 then spec_fn1 cs out else spec_fn2 cs out
                | _ => bad_input end
